@@ -1,2 +1,54 @@
-"""Native replays: rebuild the failing input from the verifier's counterexample and run the real code."""
-REPLAYS = {}
+"""Native replays: rebuild the failing input from the verifier's counterexample and run the real code
+(compiled from /repo's working tree by tools/native.sh) against an independent oracle.
+Each handler returns (confirmed: bool, detail: dict)."""
+import json, os, subprocess, sys, tempfile
+from .core import ROOT, BUILD
+
+def _native(name, extra=()):
+    exe = os.path.join(BUILD, "native-" + name)
+    r = subprocess.run([os.path.join(ROOT, "tools", "native.sh"), exe, os.path.join(ROOT, "replay", name + ".c")] + list(extra),
+                       capture_output=True, text=True)
+    if r.returncode != 0:
+        raise RuntimeError("native build failed: " + r.stderr[-800:])
+    return exe
+
+def _run(cmd, timeout=120, env=None):
+    e = dict(os.environ); e["ASAN_OPTIONS"] = "detect_leaks=0"
+    if env: e.update(env)
+    r = subprocess.run(cmd, capture_output=True, text=True, timeout=timeout, env=e)
+    return r.returncode, (r.stdout + r.stderr)[-1500:]
+
+def _int(v, default=0):
+    try:
+        if isinstance(v, str):
+            v = v.strip().rstrip("ulUL")
+            return int(v, 0)
+        return int(v)
+    except Exception:
+        return default
+
+def c16(rec, wd):
+    inp = rec.get("counterexample_inputs", {})
+    v = _int(inp.get("in_v", inp.get("in_v64", inp.get("in_v32", 0))))
+    off = _int(inp.get("in_off", 0))
+    exe = _native("c16_codec")
+    cmd = [exe, hex(v & (2**64 - 1)), str(off)]
+    b = inp.get("in_b")
+    if isinstance(b, list):
+        cmd += [hex(_int(x) & 0xff) for x in b]
+    rc, out = _run(cmd)
+    return rc == 1, {"cmd": " ".join(cmd), "rc": rc, "output": out}
+
+REPLAYS = {"c16": c16}
+
+def replay_file(path):
+    rec = json.load(open(path))
+    from . import groups
+    g = next((g for g in groups.G if g.name == rec.get("group")), None)
+    if not g or not g.replay or g.replay not in REPLAYS:
+        print("no native replay template for this obligation; verifier output:\n" + rec.get("verifier_output", ""))
+        return 2
+    ok, detail = REPLAYS[g.replay](rec, BUILD)
+    print(json.dumps(detail, indent=1))
+    print("REPRODUCED" if ok else "not reproduced")
+    return 1 if ok else 0
